@@ -1,8 +1,10 @@
 (* Source facts for C10: the lock discipline of the two synchronized collector wrappers, read off
    coq/Generated/LockPaths.v (regenerated from /repo's source by `ftdcverif lockpaths` on every run
-   of ./check C10 and ./check C16).  Every mutating method takes the WRITE lock and releases it by a
-   deferred Unlock on its single path; only Info takes the read lock.  A method that switches to the
-   read lock, or returns without unlocking, breaks this obligation. *)
+   of ./check C10 and ./check C16).  Every mutating method takes the WRITE lock and releases it on
+   every path (by a deferred Unlock, or by an explicit Unlock as the last lock event of the path: both
+   idioms are accepted, a path that returns between Lock and Unlock is recorded as [Lock] and is not);
+   Info takes the read lock or the write lock.  A mutating method that switches to the read lock,
+   returns without unlocking, or splits its critical section in two breaks this obligation. *)
 From Coq Require Import String List Bool.
 From FV.Model Require Import SysInterval.
 From FV.Generated Require Import LockPaths.
@@ -44,19 +46,37 @@ Definition sync_writers : list string :=
 Definition sync_readers : list string :=
   ["ftdc.synchronizedCollector.Info"; "events.synchronizedCollector.Info"].
 
+(* one critical section under the write lock, released on the way out *)
+Definition balanced_write (p : list lock_event) : bool :=
+  path_eqb [Lock; DeferUnlock] p || path_eqb [Lock; Unlock] p.
+
+(* one critical section under either lock *)
+Definition balanced_any (p : list lock_event) : bool :=
+  balanced_write p || path_eqb [RLock; DeferRUnlock] p || path_eqb [RLock; RUnlock] p.
+
+Definition all_paths_satisfy (ok : list lock_event -> bool) (f : string) : bool :=
+  match paths_of f with
+  | [] => false
+  | ps => forallb ok ps
+  end.
+
 Theorem FactsLocks_sync_collectors_write_lock :
-  forallb (all_paths_are [Lock; DeferUnlock]) sync_writers = true.
+  forallb (all_paths_satisfy balanced_write) sync_writers = true.
 Proof. vm_compute. reflexivity. Qed.
 Print Assumptions FactsLocks_sync_collectors_write_lock.
 
 Theorem FactsLocks_sync_collectors_read_lock :
-  forallb (all_paths_are [RLock; DeferRUnlock]) sync_readers = true.
+  forallb (all_paths_satisfy balanced_any) sync_readers = true.
 Proof. vm_compute. reflexivity. Qed.
 Print Assumptions FactsLocks_sync_collectors_read_lock.
 
-(* the catcher: Add appends under the write lock (after the nil test), observers take the read lock *)
+(* the catcher: Add and Extend append under ONE write-locked section (after the nil / empty test, whose
+   path takes no lock); a variant that reads the list under the read lock and swaps a copy in under the
+   write lock loses the errors added in between, and shows up here as a path with two sections *)
+Definition catcher_mutators : list string := ["util.basicCatcher.Add"; "util.basicCatcher.Extend"].
+
 Theorem FactsLocks_catcher_add :
-  existsb (path_eqb [Lock; DeferUnlock]) (paths_of "util.basicCatcher.Add") = true /\
-  forallb (fun p => path_eqb [] p || path_eqb [Lock; DeferUnlock] p) (paths_of "util.basicCatcher.Add") = true.
-Proof. vm_compute. split; reflexivity. Qed.
+  forallb (fun f => existsb balanced_write (paths_of f) &&
+                    forallb (fun p => path_eqb [] p || balanced_write p) (paths_of f)) catcher_mutators = true.
+Proof. vm_compute. reflexivity. Qed.
 Print Assumptions FactsLocks_catcher_add.
